@@ -1,16 +1,20 @@
 # C03 spec (see tools/props.py)
 SPEC = {
         "ready": True,
-        "sources": ["c03.cpp"], "lib": ["half.cpp"],
+        "sources": ["c03.cpp", "c03_largestack.cpp"], "lib": ["half.cpp"],
         "technique": "exhaustive enumeration of all 2^16 half patterns (all 2^32 ordered pairs for arithmetic in the thorough tier) "
                      "against definition-level models",
         "level_text": "Every half bit pattern is run through the classification predicates, unary minus, round(n) for sixteen n, the stream "
-                      "operators and ten halfFunction domains x three functors; every numeric_limits<half> value member and HALF_* macro is "
+                      "operators (one value per stream, and all finite values through one stream in sequence) and eighteen halfFunction domains x five "
+                      "instantiations (float, uint32_t, half, double), in the default build and in the IMATH_HAVE_LARGE_STACK build of halfFunction.h; every numeric_limits<half> value member and HALF_* macro is "
                       "compared with what a scan of all 65536 patterns through the library's own conversion finds, and digits10 / max_digits10 "
                       "are decided by brute force over every decimal of that many digits / every finite half. Compound arithmetic is compared "
                       "with one IEEE single operation followed by the independent reference encoder: quick = all 2^16 left operands x ~1900 "
                       "boundary half operands and x 4096 boundary float operands x four operators; thorough = all 2^32 ordered pairs x four "
-                      "operators. All of these spaces are finite and enumerated completely.",
+                      "operators; += and -= with float operands aimed at the result's rounding boundaries (every finite left operand x the midpoints "
+                      "between adjacent halves [quick: those next to the boundary patterns, thorough: all] x {the midpoint, the floats either side}). "
+                      "NaN results are decided bitwise where one IEEE operation fixes them (one NaN operand, invalid operations) and up to the choice "
+                      "of operand where it does not (two NaN operands). All of these spaces are finite and enumerated completely.",
         "level_note": "float right-hand sides are a boundary alphabet (every exponent x boundary significands), not all 2^32; the reference "
                       "model halfref.hpp is self-checked in C01; x86-64 SSE float arithmetic is trusted to be IEEE.",
         "deadline": {"quick": 240, "thorough": 900},
